@@ -233,4 +233,33 @@ def run(rep):
         elif rec['b'] % 12 == 0:
             rep.sample({'meta': meta, 'act': rec['act'], 'observed': rec.get('hist12') or rec.get('rdfs')[:2]})
     rep.traces += len(recs)
+    long_run(rep, rng, 1505 if quick else 12007)
     rep.exhaustive = True
+
+
+def long_run(rep, rng, T):
+    """Scale in the number of frames: a short trajectory (of the kind judged above) repeated to T frames.  The pair histogram is a
+    sum over frames (the returned g(r) is that sum over the ideal-gas shell count), so K repeats must give K times the short run's values
+    (both species orders), whatever block size the implementation works in."""
+    from pymatgen.core import Lattice, Species
+    from gemdat import Trajectory
+    from gemdat.rdf import radial_distribution_between_species
+    G = gen.FAMILIES['tric']
+    M = gen.lattice_matrix(G, 'rot', rng)
+    T0, A = 7, 5
+    pos = rng.integers(0, N, size=(T0, A, 3))
+    species = [Species(x) for x in ('Li', 'Li', 'O', 'O', 'S')]
+    K = -(-T // T0)
+    small = Trajectory(species=species, coords=pos / N, lattice=Lattice(M), time_step=1e-15, metadata={'temperature': 300.0})
+    big = Trajectory(species=species, coords=np.tile(pos / N, (K, 1, 1))[:K * T0], lattice=Lattice(M), time_step=1e-15, metadata={'temperature': 300.0})
+    for (s1, s2) in (('Li', 'O'), ('O', 'Li'), ('Li', 'S')):
+        rs = radial_distribution_between_species(trajectory=small, specie_1=s1, specie_2=s2, max_dist=4.3, resolution=0.37)
+        rb = radial_distribution_between_species(trajectory=big, specie_1=s1, specie_2=s2, max_dist=4.3, resolution=0.37)
+        rep.evaluations += 1
+        rep.nontrivial += 1
+        ys, yb = np.asarray(rs.y, dtype=float), np.asarray(rb.y, dtype=float)
+        # g(r) as returned is the pair count summed over frames divided by the ideal-gas shell count: K repeats give K times the value
+        if ys.shape != yb.shape or not np.allclose(yb, K * ys, rtol=1e-9, atol=1e-12):
+            rep.violation({'kind': 'scale', 'clause': 'rdf-of-repeated-trajectory-differs', 'frames': K * T0, 'species': [s1, s2],
+                           'short': ys.tolist()[:8], 'long': yb.tolist()[:8]})
+    rep.extra['long_run'] = {'frames': K * T0}
